@@ -25,7 +25,7 @@ type C20Task struct {
 	Op    string       `json:"op"` // "enc" | "dec"
 	File  lib.FileSpec `json:"file"`
 	Segs  []int        `json:"segs,omitempty"`
-	IdKey int          `json:"id_key"` // dec: which real key of the file opens it
+	IdKey int          `json:"id_key"`          // dec: which real key of the file opens it
 	After string       `json:"after,omitempty"` // enc: what the caller does after Close: "" | "close" (a second Close, as defer + explicit Close give) | "close-write" (and a Write after that); legal, reports an error, must touch nobody else
 }
 
@@ -33,6 +33,7 @@ type C20Plan struct {
 	Mode  string    `json:"mode"` // "sched" (deterministic baton passing at the seams) | "sched-fine" (the same with a yield before every statement of the library, in an AST-rewritten scratch copy) | "race" (free-running under the race detector)
 	Tasks []C20Task `json:"tasks"`
 	Sched []int     `json:"sched,omitempty"` // scheduler choices: index into the runnable set at each yield
+	Ring  bool      `json:"ring,omitempty"`  // the decrypting tasks pass ONE shared identity slice (keyring...) holding all their identities
 	// race mode
 	Procs int    `json:"procs,omitempty"`
 	Iters int    `json:"iters,omitempty"`
@@ -44,8 +45,10 @@ type C20 struct{}
 // stmtHookSetter is non-nil only in the binary built with -tags astyield (see c20_ast_on.go).
 var stmtHookSetter func(func())
 
-func (C20) ID() string           { return "C20" }
-func (C20) Title() string        { return "caller tasks sharing key objects: seeded baton-passing scheduler at the seams + free-running stage under the race detector" }
+func (C20) ID() string { return "C20" }
+func (C20) Title() string {
+	return "caller tasks sharing key objects: seeded baton-passing scheduler at the seams + free-running stage under the race detector"
+}
 func (C20) NewPlan() interface{} { return &C20Plan{} }
 func (C20) Runs(tier string) int {
 	if tier == "thorough" {
@@ -56,13 +59,13 @@ func (C20) Runs(tier string) int {
 
 func (C20) Meta() core.Meta {
 	return core.Meta{
-		Level: "exploration",
-		Rule: "sched case = 2..8 tasks (Encrypt or Decrypt, own plaintext/tape/destination/source; a third of the encrypting callers close their writer a second time, or also write after that, with a yield in between) sharing ONE recipient and ONE identity object per key; exactly one task runs at a time and every seam call (rand.Read before and after the draw, dst.Write, src.Read) is a yield at which the plan's PRNG-chosen schedule decides who continues; oracle: each task's output bytes / plaintext equal what the same task yields alone with fresh objects, and afterwards every decrypt task repeated alone with the SHARED objects still gives that result (nothing left behind). sched-fine case = the same with 2..4 tasks in a binary built from a scratch copy of the tree in which cmd/astyield inserted a yield before every statement of age.go, primitives.go, x25519.go, scrypt.go, agessh/agessh.go, internal/stream, internal/format and armor (718 points): statement-granular, still replayable schedules. race case = 2..32 free-running goroutines (GOMAXPROCS 2/4/16, start barrier, Gosched perturbation from the plan) doing Encrypt+Decrypt over the same shared objects in a -race build; any race report is a violation, results must round-trip. Non-trivial = at least one task switch between two tasks using the same key object; distinct = distinct task-switch sequences (sched) / distinct (goroutines, procs, seed) (race).",
+		Level:       "exploration",
+		Rule:        "sched case = 2..8 tasks (Encrypt or Decrypt, own plaintext/tape/destination/source; a third of the encrypting callers close their writer a second time, or also write after that, with a yield in between) sharing ONE recipient and ONE identity object per key (in a third of the cases the decrypting tasks also pass one shared identity slice, keyring..., which must come back unchanged); exactly one task runs at a time and every seam call (rand.Read before and after the draw, dst.Write, src.Read) is a yield at which the plan's PRNG-chosen schedule decides who continues; oracle: each task's output bytes / plaintext equal what the same task yields alone with fresh objects, and afterwards every decrypt task repeated alone with the SHARED objects still gives that result (nothing left behind). sched-fine case = the same with 2..4 tasks in a binary built from a scratch copy of the tree in which cmd/astyield inserted a yield before every statement of age.go, primitives.go, x25519.go, scrypt.go, agessh/agessh.go, internal/stream, internal/format and armor (718 points): statement-granular, still replayable schedules. race case = 2..32 free-running goroutines (GOMAXPROCS 2/4/16, start barrier, Gosched perturbation from the plan) doing Encrypt+Decrypt over the same shared objects in a -race build; any race report is a violation, results must round-trip. Non-trivial = at least one task switch between two tasks using the same key object; distinct = distinct task-switch sequences (sched) / distinct (goroutines, procs, seed) (race).",
 		Assumptions: []string{"sched stage: code between two seam calls runs atomically; the sched-fine stage removes that limit for the library's own statements (not for the standard library or x/crypto below them)", "the sched-fine stage runs the library with inserted yield calls: the rewritten copy is checked to build, and its outputs are compared with runs of the same binary alone", "race stage is NOT schedule-controlled (it is the detector the property names); its replay re-runs the workload and is not exactly repeatable", "the race detector reports no false positives"},
 		Real:        []string{"filippo.io/age Encrypt/Decrypt", "X25519/scrypt/ssh-ed25519/ssh-rsa recipients and identities shared between tasks", "internal/stream"},
 		Stub:        []string{"task scheduler (baton passing)", "per-task tape behind one routed crypto/rand.Reader", "per-task destination and source"},
 		FaultKinds:  []string{},
-		Probes:      []string{"probe.task_switches", "probe.switch_inside_wrap", "probe.shared_x25519", "probe.shared_scrypt", "probe.shared_ssh_ed25519", "probe.shared_ssh_rsa", "probe.race_runs", "probe.race_goroutines", "probe.race_detector_missing", "probe.statement_level_schedules", "probe.statement_yields"},
+		Probes:      []string{"probe.task_switches", "probe.switch_inside_wrap", "probe.shared_x25519", "probe.shared_scrypt", "probe.shared_ssh_ed25519", "probe.shared_ssh_rsa", "probe.race_runs", "probe.race_goroutines", "probe.race_detector_missing", "probe.statement_level_schedules", "probe.statement_yields", "probe.shared_identity_slice"},
 	}
 }
 
@@ -84,6 +87,7 @@ func (C20) Generate(r *core.RNG, tier string, idx uint64) interface{} {
 			}
 			p.Tasks = append(p.Tasks, t)
 		}
+		p.Ring = r.Chance(1, 3)
 		return p
 	}
 	p.Mode = "sched"
@@ -107,6 +111,7 @@ func (C20) Generate(r *core.RNG, tier string, idx uint64) interface{} {
 		}
 		p.Tasks = append(p.Tasks, t)
 	}
+	p.Ring = r.Chance(1, 3)
 	m := r.Range(5, 120)
 	if p.Mode == "sched-fine" {
 		m = r.Range(50, 1500)
@@ -158,6 +163,11 @@ func (C20) Shrinks(plan interface{}) []interface{} {
 			q.Tasks = append(q.Tasks[:i:i], q.Tasks[i+1:]...)
 			out = append(out, q)
 		}
+	}
+	if p.Ring {
+		q := cp()
+		q.Ring = false
+		out = append(out, q)
 	}
 	if len(p.Sched) > 1 {
 		q := cp()
@@ -330,6 +340,31 @@ func (e C20) Execute(plan interface{}, c *core.Ctx) *core.Verdict {
 			so.identity(k)
 		}
 	}
+	// the shared keyring: every decrypting task's identity (one slot per distinct key) plus an outsider
+	var ring, ringBefore []age.Identity
+	if p.Ring {
+		seen := map[string]bool{}
+		for _, t := range p.Tasks {
+			if t.Op != "dec" {
+				continue
+			}
+			ks := t.File.Keys()
+			k := ks[t.IdKey%len(ks)]
+			if !seen[k.String()] {
+				seen[k.String()] = true
+				ring = append(ring, so.identity(k))
+			}
+		}
+		ring = append(ring, so.identity(world.Key{T: "x", K: 7}))
+		ringBefore = append([]age.Identity(nil), ring...)
+		c.Stats.Inc("probe.shared_identity_slice")
+	}
+	idsFor := func(k world.Key) []age.Identity {
+		if p.Ring {
+			return ring // the same backing array for every task
+		}
+		return []age.Identity{so.identity(k)}
+	}
 	s := &scheduler{yielded: make(chan *schedTask), choices: p.Sched, log: c.Log}
 	together := make([]outcome, len(p.Tasks))
 	old := rand.Reader
@@ -403,7 +438,7 @@ func (e C20) Execute(plan interface{}, c *core.Ctx) *core.Verdict {
 				src.Yield = y
 				ks := t.File.Keys()
 				k := ks[t.IdKey%len(ks)]
-				res := lib.Decrypt(src.Reader(), t.File.Armor, []age.Identity{so.identity(k)}, lib.ReadSched{Mode: "all"}, nil)
+				res := lib.Decrypt(src.Reader(), t.File.Armor, idsFor(k), lib.ReadSched{Mode: "all"}, nil)
 				together[i] = outcome{res.Released, res.ErrText()}
 			}
 		}()
@@ -453,6 +488,11 @@ func (e C20) Execute(plan interface{}, c *core.Ctx) *core.Verdict {
 		res := lib.Decrypt(seam.NewSource(inputs[i], seam.Delivery{Mode: "whole"}, nil, nil).Reader(), t.File.Armor, []age.Identity{so.identity(k)}, lib.ReadSched{Mode: "all"}, nil)
 		if res.ErrText() != alone[i].err || !bytes.Equal(res.Released, alone[i].out) {
 			return core.Fail("C20.state_left_behind", "after the concurrent phase, task %d's file decrypted once more with the shared %s identity gives %d bytes/%s, alone it gives %d bytes/%s: overlapping calls left state behind in the shared object", i, k, len(res.Released), res.ErrText(), len(alone[i].out), alone[i].err)
+		}
+	}
+	for j := range ring {
+		if ring[j] != ringBefore[j] {
+			return core.Fail("C20.caller_slice_modified", "the identity slice the tasks shared (keyring...) was changed by Decrypt: slot %d holds another identity than before (a concurrent caller reading it sees the intermediate states)", j)
 		}
 	}
 	for i := range p.Tasks {
@@ -539,6 +579,21 @@ func (e C20) execRaceOnce(p *C20Plan, c *core.Ctx) *core.Verdict {
 			so.identity(k)
 		}
 	}
+	var ring, ringBefore []age.Identity
+	if p.Ring {
+		seen := map[string]bool{}
+		for _, t := range p.Tasks {
+			for _, k := range t.File.Keys() {
+				if !seen[k.String()] {
+					seen[k.String()] = true
+					ring = append(ring, so.identity(k))
+				}
+			}
+		}
+		ring = append(ring, so.identity(world.Key{T: "x", K: 7}))
+		ringBefore = append([]age.Identity(nil), ring...)
+		c.Stats.Inc("probe.shared_identity_slice")
+	}
 	var wg sync.WaitGroup
 	start := make(chan struct{})
 	errs := make([]string, len(p.Tasks))
@@ -584,7 +639,11 @@ func (e C20) execRaceOnce(p *C20Plan, c *core.Ctx) *core.Verdict {
 				}
 				lastFile[i] = append([]byte(nil), buf.Bytes()...)
 				lastKey[i] = k
-				r, err := age.Decrypt(&buf, so.identity(k))
+				ids := []age.Identity{so.identity(k)}
+				if p.Ring {
+					ids = ring
+				}
+				r, err := age.Decrypt(&buf, ids...)
 				if err != nil {
 					errs[i] = "Decrypt: " + err.Error()
 					return
@@ -606,6 +665,11 @@ func (e C20) execRaceOnce(p *C20Plan, c *core.Ctx) *core.Verdict {
 	for i, e := range errs {
 		if e != "" {
 			return core.Fail("C20.concurrent_result", "goroutine %d of %d sharing key objects: %s", i, len(p.Tasks), e)
+		}
+	}
+	for j := range ring {
+		if ring[j] != ringBefore[j] {
+			return core.Fail("C20.caller_slice_modified", "the identity slice the goroutines shared (keyring...) was changed by Decrypt: slot %d holds another identity than before", j)
 		}
 	}
 	// aftermath, sequentially: every file of the concurrent phase once more with the shared identities
